@@ -119,6 +119,8 @@ def shards(tier):
         out.append({"kind": "lists", "first": i})
     out.append({"kind": "cross"})
     out.append({"kind": "far"})
+    for a in range(0, 60, 6):
+        out.append({"kind": "three", "lo": a, "hi": a + 6})
     out.append({"kind": "replaced"})
     if tier == "thorough":
         out.append({"kind": "ged"})
@@ -236,6 +238,27 @@ def run_shard(shard, tier, acc):
                 r = compare(acc, gq.build_circuit(la, pa), gq.build_circuit(lb, pb), method, case)
                 if r and (la[0], la[1]) != (lb[0], lb[1]):
                     acc.violation("soundness", method, "different-registers-reported-equal", case, False, True)
+    elif kind == "three":
+        # gate - two-qubit gate - gate on two emitters: where a gate sits relative to control / target of the middle gate matters
+        lay = (2, 1, 1)
+        g1s = [["1", "H", "e", 0], ["1", "H", "e", 1], ["1", "X", "e", 0]]
+        mids = [["CNOT", "e", 0, "e", 1], ["CNOT", "e", 1, "e", 0], ["CZ", "e", 0, "e", 1], ["MCR", "e", 0, "p", 0, 0]]
+        g2s = [["1", "H", "e", 0], ["1", "H", "e", 1], ["1", "P", "e", 0], ["1", "P", "e", 1], ["1", "X", "e", 1]]
+        fam3 = [[a, b, c] for a in g1s for b in mids for c in g2s]
+        circs = [gq.build_circuit(lay, p) for p in fam3]
+        for i in range(shard["lo"], min(shard["hi"], len(fam3))):
+            for j in range(len(fam3)):
+                for method in ("direct", "is_isomorphic"):
+                    case = {"layout": list(lay), "a": fam3[i], "b": fam3[j], "method": method}
+                    acc.evaluations += 1
+                    acc.transitions += 1
+                    r = compare(acc, circs[i], circs[j], method, case)
+                    if r and not equivalent(lay, fam3[i], fam3[j], method == "is_isomorphic"):
+                        acc.violation("soundness", method, "inequivalent-circuits-reported-equal", case, False, True)
+                    if i == j and r is False:
+                        acc.violation("reflexive", method, "circuit-not-equal-to-itself", case, True, False)
+                    if i != j:
+                        acc.nontriv((method, "three", i, j))
     elif kind == "far":
         # circuits that are far apart (graph edit distance beyond graphiq's internal upper bound of 30) must not be reported equal
         lay = (2, 1, 1)
